@@ -11,7 +11,7 @@
    every shard layout (the configuration c is universally quantified). *)
 From Coq Require Import List NArith Bool.
 From K.Model Require Import C06.
-From K.Proof Require C06 C06_ok C06_inv.
+From K.Proof Require C06 C06_ok.
 Import ListNotations.
 Local Open Scope N_scope.
 
@@ -162,7 +162,7 @@ Print Assumptions C06_recovered_sizes.
 Theorem C06_calls_succeed : forall c s o, reach c s -> wf_op c s o = true ->
   all_ok (calls_of (step c s o)) (disk s) = true /\
   disk (st_of (step c s o)) = exec (calls_of (step c s o)) (disk s).
-Proof. exact (fun c s o R W => conj (Proof.C06_ok.calls_succeed_reach c s o R W) (Proof.C06_inv.step_disk c s o)). Qed.
+Proof. exact Proof.C06_ok.calls_succeed_and_effect. Qed.
 Print Assumptions C06_calls_succeed.
 
 Theorem C06_trace_succeeds : forall c ops s, reach c s -> wf_all c s ops = true ->
